@@ -11,7 +11,7 @@
      well_timed c ops       every clock reading is >= count * interval (so minID = 0 means "not set") and
                             every distribution index is in range; clocks need not be monotone, event times
                             are arbitrary                                                                *)
-From Verif Require Import Base.Sx Base.GoSem Model.Throttle Proofs.Throttle.
+From Verif Require Import Base.Sx Base.GoSem Model.Throttle Proofs.Throttle Proofs.ThrottleRedis.
 From Coq Require Import Lia.
 
 (* the ring with its rotations and resets computes exactly the never-reset per-id counters: never panics,
@@ -140,6 +140,36 @@ Theorem c16_sentinel_refuted :
     fst (lrun c (lim0 c) ops) = [true; false] /\ snd (s_run c spec0 ops) = [true; true].
 Proof. exact sentinel_refuted. Qed.
 Print Assumptions c16_sentinel_refuted.
+
+(* the REDIS backend (a second caller of the same limiter; sub-model which = 9 of the check): one limiter without
+   distribution in ONE process, its syncs between events, its limit key never set, a clock that does not step back
+   (rtimed: also past the first window and below the real clock, sizes >= 0).  The pair (increment limiter, total
+   limiter) over the redis counters never panics and takes exactly the decisions of the reference semantics of the
+   in-memory backend — hence every bound above (c16_count_limit, c16_size_limit) holds for it too.
+   rrun = rl_allow (redisLimiter.isAllowed) and sync_one (redisLimiter.sync) as run by c16_run9. *)
+Theorem c16_redis_single_process :
+  forall c k its, wf_cfg c = true -> shares c = [] -> 0 <= limit c -> rtimed c 0 its = true ->
+  rrun (rl_fresh c k) [] its = Ok (snd (s_run c spec0 (r_events its))).
+Proof. exact redis_single_process. Qed.
+Print Assumptions c16_redis_single_process.
+
+(* ... and the restriction to limiters without distribution is needed: limit 10 = default share 9 + listed share 1,
+   one bucket (id 2), 9 unlisted events, sync, unlisted event (stolen slot in the total ring only), sync, listed
+   event: 11 passes (the in-memory backend passes 10: c16_distr_shares) *)
+Theorem c16_redis_distribution_refuted :
+  let its := repeat (ev_rd None) 9 ++ [RSync 25; ev_rd None; RSync 25; ev_rd (Some 0)] in
+  rtimed c_rd 0 its = true /\ rrun r_rd [] its = Ok (repeat true 11) /\
+  eids_from c_rd None (r_events its) = repeat 2 11 /\ deflimit c_rd + sumZ (shares c_rd) = 10.
+Proof. exact redis_distribution_refuted. Qed.
+Print Assumptions c16_redis_distribution_refuted.
+
+Example c16_redis_nonvacuous :
+  let c := {| count := 2; interval := 10; size_kind := false; limit := 2; deflimit := 0; shares := [] |} in
+  let e := fun n t => REv {| o_now := n; o_ts := t; o_size := 1; o_dv := None |} in
+  let its := [e 20 20; e 21 21; RSync 22; e 23 23; e 31 31; RSync 35; e 36 25; e 36 36] in
+  wf_cfg c = true /\ rtimed c 0 its = true /\
+  rrun (rl_fresh c []) [] its = Ok [true; true; false; true; false; true].
+Proof. exact redis_single_process_nonvacuous. Qed.
 
 (* non-vacuity: 3 buckets of 10ns, limit 2, shares (1) + default 1; the clock jumps over a window and steps
    back, event times in the past / future / out of order; the hypotheses hold and decisions are mixed *)
